@@ -24,6 +24,9 @@ Proof. reflexivity. Qed.
 From Fiano Require Import Base.BytesLemmas.
 From Coq Require Import ZifyBool ZifyNat.
 
+(* a changed kernel must make a tie lemma FAIL, not make a conversion check run for an hour *)
+Set Default Timeout 120.
+
 Lemma go_Address64_Offset_tie addr size : go_Address64_Offset addr size = Fit.offset_of_phys addr size.
 Proof. reflexivity. Qed.
 
